@@ -123,7 +123,7 @@ class E2:
                 if rep.get('verdict') == 'reproduced' and confirmed is None and known_id(v) is None:
                     confirmed = (v, rep)
             payload = {'property': pid, 'obligation': self.name, 'engine': self.engine, 'harness': self.harness, 'defines': self.defines + extra,
-                       'violations': [{k: v[k] for k in ('kind', 'msg', 'where', 'model', 'choices', 'failed_alloc', 'io_failed', 'io_fail_op', 'interfered', 'notes') if k in v} for v in uniq[:40]],
+                       'violations': [{k: v[k] for k in ('kind', 'msg', 'where', 'model', 'choices', 'failed_alloc', 'io_failed', 'io_fail_op', 'interfered', 'notes', 'poke') if k in v} for v in uniq[:40]],
                        'native_replay': reports, 'total_violating_paths': len(viol)}
             path = save_replay(pid, self.name, payload)
             if confirmed:
@@ -142,10 +142,10 @@ class E2:
         validated = 0; mism = None
         if self.native_replay:
             for smp in res['samples'][:self.validate]:
-                rep = self._native(d, {'model': smp['inputs'], 'choices': smp['choices'], 'failed_alloc': smp.get('failed_alloc'), 'io_failed': smp.get('io_failed'),
+                rep = self._native(d, {'model': smp['inputs'], 'choices': smp['choices'], 'failed_alloc': smp.get('failed_alloc'), 'io_failed': smp.get('io_failed'), 'poke': smp.get('poke'), 'interfered': smp.get('interfered'),
                                        'io_fail_op': smp.get('io_fail_op')}, extra, expect_obs=smp['obs'])
                 if rep.get('verdict') == 'agrees': validated += 1
-                elif rep.get('verdict') in ('obs-mismatch', 'reproduced'):
+                elif rep.get('verdict') in ('obs-mismatch', 'reproduced', 'replay-build-failed'):
                     mism = rep; break
         stats['validated'] = validated
         if mism:
@@ -166,7 +166,7 @@ class E2:
             cmd = ['gcc', '-std=gnu11', '-O1', '-g', '-w', '-fsanitize=address,undefined', '-fno-sanitize-recover=undefined', '-fno-omit-frame-pointer'] + REAL_DEFS + REAL_INCS + \
                   ['-I' + os.path.join(VERIF, 'harness'), '-I' + os.path.join(VERIF, 'ref'), '-DVERIF_NATIVE'] + self.defines + list(extra_defs) + \
                   [os.path.join(VERIF, self.harness), os.path.join(VERIF, 'harness', 'e2', 'symx_native.c')] + [os.path.join(VERIF, 'ref', r) for r in self.ref] + \
-                  [lib, '-o', exe, NATIVE_WRAPS] + native_link_flags(True)
+                  [lib, '-o', exe, '-no-pie', NATIVE_WRAPS] + native_link_flags(True)
             rc, out, err, _, _ = run(cmd, timeout=600)
             if rc != 0:
                 self._native_exe = False
@@ -190,6 +190,33 @@ class E2:
                 f.write('failio %d %s\n' % (v.get('io_fail_op') or 0, v['io_failed']))
             if v.get('interfered'):
                 f.write('interfere %d %d\n' % (v['interfered'][0], v['interfered'][1]))
+            if v.get('poke'):
+                # state of ANOTHER thread's partial progress through an initialiser: written straight into the globals of the
+                # native executable (addresses from nm; built -no-pie)
+                rc_, nm_out, _, _, _ = run(['nm', self._native_exe], timeout=60)
+                addr = {}
+                for line in nm_out.splitlines():
+                    parts = line.split()
+                    if len(parts) == 3 and parts[1] in 'bBdDrRtT': addr.setdefault(parts[2], []).append(int(parts[0], 16))
+                def sym_addr(name):
+                    base = name.lstrip('@')
+                    cands = addr.get(base) or addr.get(base.rsplit('.', 1)[0]) or []
+                    return cands[0] if len(cands) == 1 else None
+                ok = True
+                for name, hexs in v['poke']['reset']:
+                    a = sym_addr(name)
+                    if a is None: ok = False; continue
+                    f.write('reset %x %s\n' % (a, hexs or '00'))
+                for name, off, hexs in v['poke']['stores']:
+                    a = sym_addr(name)
+                    if a is None or hexs is None: ok = False; continue
+                    if hexs.startswith('fn:'):
+                        fa = sym_addr(hexs[3:])
+                        if fa is None: ok = False; continue
+                        hexs = ''.join('%02x' % ((fa >> (8 * i)) & 0xFF) for i in range(8))
+                    f.write('poke %x %s\n' % (a + off, hexs))
+                if not ok:
+                    return {'verdict': 'not-replayable', 'output': 'the partial-initialiser state contains stores that cannot be expressed natively (pointers to data objects / ambiguous symbols)'}
         env = dict(os.environ); env['SYMX_INPUT'] = inp; env['SYMX_TMP'] = tmp
         env['OMP_NUM_THREADS'] = '1'     # the engine explores the sequential schedule of the OpenMP loops; real interleavings are C07's subject
         env['ASAN_OPTIONS'] = 'detect_leaks=%d:exitcode=99:allocator_may_return_null=1' % (1 if self.leaks else 0)
